@@ -16,6 +16,7 @@ import re
 
 from vlib.hostlist import (HL, Cli, WFGen, LIMIT, hx, unhx, parse_probe, parse_spec, same_answer, feat_big,
                            feat_longplain, feat_first_group_complete, feat_d16, gen_malformed, exhaustive, names_field,
+                           impl_tokens,
                            VERIF_CORPUS)
 
 LEVEL = "proof"
@@ -243,6 +244,10 @@ def cli_check(ctx, hl, dist, cov, only=None):
             big = feat_big(s)
             if feat_longplain(s):
                 sig = "cli-crash:plainword>=1023"
+            elif any(len(t) >= 1000 for t in impl_tokens(s)) and cls.startswith("crash"):
+                # wcoll_expand parses every first-level NAME again: a bracketed word whose names reach 1023
+                # bytes meets the unterminated cur_tok at the second level
+                sig = "cli-crash:word>=1000bytes"
             else:
                 sig = "cli-%s" % ("crash" if cls.startswith("crash") else "timeout") + (":bound>=2^64-1" if big else "")
             ctx.offender(sig, "pdsh -Q -w TEXT: %s" % cls, case)
